@@ -452,8 +452,9 @@ class TimeBase(np.ndarray):
 
     def __hash__(self):
         try:
-            return hash(self.jd1.data.tobytes()) + hash(self.jd2.data.tobytes())
-        except AttributeError:
+            # Python floats (a single epoch read from a datetime) hash like the equal numpy scalars and 0-d arrays
+            return hash(np.asarray(self.jd1, dtype=float).tobytes()) + hash(np.asarray(self.jd2, dtype=float).tobytes())
+        except (TypeError, ValueError):
             return hash(str(self.jd1)) + hash(str(self.jd2))
 
     def __eq__(self, other):
